@@ -22,7 +22,7 @@ from common import REPO, cz, clist
 
 LEVEL = "proof"
 THEOREMS = "Props/C06.v"
-EXTRA_TARGETS = ("Gen/RmsdFormulas.vo",)
+EXTRA_TARGETS = ("Gen/RmsdFormulas.vo", "Gen/RmsdLayout.vo", "Rmsd/Layout.vo")
 EXTS = ["_rmsd", "_lprmsd"]
 
 SRC = "mdtraj/rmsd/src/theobald_rmsd.cpp"
@@ -770,7 +770,199 @@ def translate_newton(text):
             "Definition step (lambda C_0 C_1 C_2 : R) : R := %s.\nEnd Newton.\n" % env["lambda"])
 
 
+# -------------------------------------------------------------------------------------
+#  Part 1b: loop structure / memory layout of the SIMD kernels -> coq/Gen/RmsdLayout.v
+# -------------------------------------------------------------------------------------
+LAY_MSD = "mdtraj/rmsd/src/theobald_rmsd_sse.h"
+LAY_ROT = "mdtraj/rmsd/src/rotation_sse.h"
+LAY_CEN = "mdtraj/rmsd/src/center_sse.h"
+
+
+def preprocess_unaligned(text):
+    """resolve #ifdef/#ifndef ALIGNED (the build does not define it), drop OpenMP pragmas; any other directive raises"""
+    out, stack = [], []
+    for line in text.split("\n"):
+        st = line.strip()
+        if st.startswith("#"):
+            d = st[1:].strip()
+            if re.fullmatch(r"ifdef\s+ALIGNED", d):
+                stack.append(False)
+            elif re.fullmatch(r"ifndef\s+ALIGNED", d):
+                stack.append(True)
+            elif re.fullmatch(r"ifdef\s+_OPENMP", d):
+                stack.append(None)              # pragma block: dropped
+            elif d.startswith("else"):
+                if not stack or stack[-1] is None:
+                    raise TranslateError("#else outside an ALIGNED conditional")
+                stack[-1] = not stack[-1]
+            elif d.startswith("endif"):
+                if not stack:
+                    raise TranslateError("unbalanced #endif")
+                stack.pop()
+            elif d.startswith("pragma") or (stack and stack[-1] is None):
+                continue
+            else:
+                raise TranslateError("preprocessor directive outside the grammar: %s" % st)
+            continue
+        if all(v is True for v in stack):
+            out.append(line)
+    if stack:
+        raise TranslateError("unbalanced conditional")
+    return "\n".join(out)
+
+
+def int_expr(text, names):
+    """C integer expression over the given variables (+ - * / % >> parentheses, literals) -> Coq nat expression"""
+    toks = re.findall(r"\s*(>>|[A-Za-z_]\w*|\d+|[-+*/%()])", text)
+    if "".join(toks) != re.sub(r"\s+", "", text):
+        raise TranslateError("integer expression outside the grammar: %s" % text)
+    pos = [0]
+
+    def peek():
+        return toks[pos[0]] if pos[0] < len(toks) else None
+
+    def eat():
+        pos[0] += 1
+        return toks[pos[0] - 1]
+
+    def atom():
+        t = eat()
+        if t == "(":
+            e = shift()
+            if eat() != ")":
+                raise TranslateError("unbalanced parenthesis in %s" % text)
+            return "(%s)" % e
+        if t.isdigit():
+            return t
+        if t in names:
+            return names[t]
+        raise TranslateError("unexpected %r in integer expression %s" % (t, text))
+
+    def mul():
+        e = atom()
+        while peek() in ("*", "/", "%"):
+            op = eat()
+            e = "(%s %s %s)" % (e, {"*": "*", "/": "/", "%": "mod"}[op], atom())
+        return e
+
+    def add():
+        e = mul()
+        while peek() in ("+", "-"):
+            op = eat()
+            e = "(%s %s %s)" % (e, op, mul())
+        return e
+
+    def shift():
+        e = add()
+        while peek() == ">>":
+            eat()
+            k = add()
+            if not k.isdigit():
+                raise TranslateError("shift by a non-literal")
+            e = "(%s / %d)" % (e, 2 ** int(k))
+        return e
+    e = shift()
+    if pos[0] != len(toks):
+        raise TranslateError("trailing tokens in integer expression %s" % text)
+    return e
+
+
+def one(pattern, text, what, count=1):
+    ms = re.findall(pattern, text, re.S)
+    if len(ms) != count:
+        raise TranslateError("%s: expected %d occurrence(s), found %d" % (what, count, len(ms)))
+    return ms[0] if count == 1 else ms
+
+
+def translate_layout(read):
+    msd = preprocess_unaligned(function_body(strip_comments(read(LAY_MSD)), "msd_atom_major")[1])
+    rot = preprocess_unaligned(function_body(strip_comments(read(LAY_ROT)), "rot_atom_major")[1])
+    cen = preprocess_unaligned(function_body(strip_comments(read(LAY_CEN)), "inplace_center_and_trace_atom_major")[1])
+    # --- msd_atom_major
+    tab = one(r"static\s+const\s+int\s+masks\s*\[4\]\s*\[4\]\s*=\s*\{(.*?)\}\s*;", msd, "masks table")
+    rows = re.findall(r"\{([^{}]*)\}", tab)
+    masks = [[int(v) for v in re.findall(r"-?\d+", r_)] for r_ in rows]
+    if len(masks) != 4 or any(len(r_) != 4 or any(v not in (0, 1) for v in r_) for r_ in masks):
+        raise TranslateError("masks table is not 4 x 4 of 0/1")
+    niters = int_expr(one(r"\bniters\s*=\s*([^;]+);", msd, "niters"), {"nrealatoms": "n"})
+    mrow = int_expr(one(r"\bmask\s*=\s*masks\s*\[([^\]]+)\]\s*;", msd, "mask row"), {"nrealatoms": "n"})
+    one(r"for\s*\(\s*k\s*=\s*0\s*;\s*k\s*<\s*niters\s*;\s*k\+\+\s*\)", msd, "block loop")
+    last = int_expr(one(r"if\s*\(\s*k\s*==\s*([^)]+)\)", msd, "last-block test"), {"niters": "it"})
+    sets = re.findall(r"\b([ab])([xyz])\s*=\s*_mm_set_ps\s*\(([^;]*)\)\s*;", msd)
+    if [r_[0] + r_[1] for r_ in sets] != ["ax", "ay", "az", "bx", "by", "bz"]:
+        raise TranslateError("_mm_set_ps loads: %s" % [r_[0] + r_[1] for r_ in sets])
+    set_rows = []
+    for buf, comp, args in sets:
+        lanes = re.findall(r"mask\s*\[\s*(\d+)\s*\]\s*\?\s*([ab])\s*\[\s*(\d+)\s*\]\s*:\s*0", args)
+        if len(lanes) != 4 or re.sub(r"\s+", "", args) != ",".join("mask[%s]?%s[%s]:0" % l_ for l_ in lanes) or any(l_[1] != buf for l_ in lanes):
+            raise TranslateError("_mm_set_ps arguments outside the grammar: %s" % args)
+        set_rows.append([(int(l_[0]), int(l_[2])) for l_ in lanes])
+    sa, sb = one(r"\ba\s*\+=\s*(\d+)\s*;", msd, "a += stride"), one(r"\bb\s*\+=\s*(\d+)\s*;", msd, "b += stride")
+    if sa != sb:
+        raise TranslateError("different strides for a and b")
+    # --- rot_atom_major
+    rblocks = int_expr(one(r"\bn_iters\s*=\s*([^;]+);", rot.split("for")[0].split("unsigned int n_iters = 0;")[-1], "n_iters"), {"n_atoms": "n"})
+    loops = re.findall(r"for\s*\(\s*k\s*=\s*0\s*;\s*k\s*<\s*([^;]+);\s*k\+\+\s*\)", rot)
+    if len(loops) != 2 or loops[0].strip() != "n_iters":
+        raise TranslateError("rot_atom_major loops: %s" % loops)
+    rtail = int_expr(loops[1], {"n_atoms": "n"})
+    rstride = one(r"\ba\s*\+=\s*(\d+)\s*;", rot, "rot stride")
+    for c in range(3):
+        if len(re.findall(r"a\s*\[\s*3\s*\*\s*k\s*\+\s*%d\s*\]" % c, rot)) != 2:
+            raise TranslateError("rot_atom_major epilogue does not read and write a[3*k + %d]" % c)
+    # --- inplace_center_and_trace_atom_major
+    cl = re.findall(r"for\s*\(\s*i\s*=\s*0\s*;\s*i\s*<\s*([^;]+);\s*i\+\+\s*\)", cen)
+    if len(cl) != 4:
+        raise TranslateError("centring kernel: %d atom loops instead of 4" % len(cl))
+    cexp = [int_expr(e, {"n_atoms": "n"}) for e in cl]
+    offs = re.findall(r"confp\s*=\s*&\s*coords\s*\[([^\]]+)\]\s*;", cen)
+    if len(offs) != 2 or re.sub(r"\s+", "", offs[0]) != re.sub(r"\s+", "", offs[1]):
+        raise TranslateError("centring kernel: frame pointer")
+    coff = int_expr(offs[0], {"n_atoms": "n", "k": "k"})
+    one(r"for\s*\(\s*k\s*=\s*0\s*;\s*k\s*<\s*n_frames\s*;\s*k\+\+\s*\)", cen, "frame loop")
+    b = lambda v: "true" if v else "false"
+    L = ["(* GENERATED by harness/props/C06.py:translate from %s, %s, %s." % (LAY_MSD, LAY_ROT, LAY_CEN),
+         "   Do not edit: rewritten on every run when the source text changes. *)",
+         "From Coq Require Import List Arith Bool.", "Import ListNotations.", "Module Lay.",
+         "(* msd_atom_major (ALIGNED not defined) *)",
+         "Definition masks : list (list bool) := %s." % clist([clist([b(v) for v in r_]) for r_ in masks]),
+         "Definition msd_niters (n : nat) : nat := %s." % niters,
+         "Definition msd_mask_row (n : nat) : nat := %s." % mrow,
+         "Definition msd_last (k it : nat) : bool := k =? %s." % last,
+         "Definition msd_stride : nat := %s." % sa,
+         "(* last block: lanes of ax ay az bx by bz as (mask index, offset into the block) *)",
+         "Definition set_ps : list (list (nat * nat)) := %s." % clist([clist(["(%d, %d)" % l_ for l_ in r_]) for r_ in set_rows]),
+         "(* rot_atom_major *)",
+         "Definition rot_blocks (n : nat) : nat := %s." % rblocks,
+         "Definition rot_tail (n : nat) : nat := %s." % rtail,
+         "Definition rot_stride : nat := %s." % rstride,
+         "(* inplace_center_and_trace_atom_major: both passes *)",
+         "Definition center_blocks1 (n : nat) : nat := %s." % cexp[0],
+         "Definition center_tail1 (n : nat) : nat := %s." % cexp[1],
+         "Definition center_blocks2 (n : nat) : nat := %s." % cexp[2],
+         "Definition center_tail2 (n : nat) : nat := %s." % cexp[3],
+         "Definition center_frame_offset (k n : nat) : nat := %s." % coff,
+         "End Lay."]
+    return "\n".join(L) + "\n"
+
+
 def translate(ctx):
+    def read(rel):
+        with open(os.path.join(REPO, rel)) as fh:
+            return fh.read()
+    lay_error = None
+    try:
+        changed_l = ctx.write_gen("Gen/RmsdLayout.v", translate_layout(read))
+        ctx.notes.setdefault("coverage_extra", {})["layout_translator"] = "ok (%s)" % ("regenerated" if changed_l else "unchanged")
+    except TranslateError as e:
+        lay_error = e
+        ctx.notes.setdefault("coverage_extra", {})["layout_translator"] = "degraded: %s" % e
+    translate_formulas(ctx)
+    if lay_error is not None:
+        raise lay_error
+
+
+def translate_formulas(ctx):
     with open(os.path.join(REPO, SRC)) as fh:
         text = fh.read()
     out, _info = translate_source(text)
@@ -791,7 +983,9 @@ RULE = ("conformations are generated from seeded recipes (kinds: random, near_id
         "near_half_turn, swapped_halves) with atom counts covering all residues mod 4 up to 4099; ops = md.rmsd (parallel x "
         "precentered x atom_indices none/equal/different, any order, any reference frame), Trajectory.superpose, "
         "md.rmsf, md.lprmsd, and md.rmsd(precentered=True) after short histories (center_coordinates, superpose onto "
-        "centred/off-origin references, slicing, atom_slice, xyz assignment); a case-op-frame is non-trivial when the two conformations differ; distinct by hash of "
+        "centred/off-origin references, mass-weighted centring with unequal masses, join of centred/uncentred pieces with and without a repeated "
+        "boundary frame and discard_overlapping_frames, slicing, atom_slice, xyz assignment); argument handling (excluded arguments must raise, "
+        "unusual legal ones must work); integer-grid cases also go through the kernels' loop-structure model (flat buffers); a case-op-frame is non-trivial when the two conformations differ; distinct by hash of "
         "(generator recipe, op)")
 TRUSTED = ["harness/impl/rmsd_impl.py (builds Trajectory objects, calls the public API, returns raw arrays)",
            "harness/props/C06.py: C-subset translator (decides which source text becomes which Gallina term), case "
@@ -1045,11 +1239,21 @@ def gen_history_op(rng, n, m, F, G, offset):
     cur_n, cur_F = n, F
     other = rng.random() < 0.4
     user_edit = rng.random() < 0.15
-    choices = ["center", "center", "superpose", "superpose", "slice", "xyz_assign"] + ([] if other else ["atom_slice"])
+    choices = ["center", "center", "center_mass", "join", "join", "superpose", "superpose", "slice", "xyz_assign"] + ([] if other else ["atom_slice"])
     for _ in range(rng.randint(1, 4)):
         k = rng.choice(choices)
         if k == "center":
             steps.append(["center"])
+        elif k == "center_mass":
+            steps.append(["center_mass"])
+        elif k == "join":
+            # usually on a centred trajectory with a centred second piece (all traces present), with and without a
+            # repeated boundary frame, with and without discarding it
+            if rng.random() < 0.7 and (not steps or steps[-1][0] != "center"):
+                steps.append(["center"])
+            nextra = rng.randint(1, 3)
+            steps.append(["join", rng.random() < 0.6, rng.random() < 0.6, rng.random() < 0.8, nextra, rng.randrange(1, 2 ** 31 - 1)])
+            cur_F += nextra              # a lower bound (one frame may be discarded); the runner reduces the frame index modulo the real count
         elif k == "superpose":
             ai = ri = None
             if cur_n != m or rng.random() < 0.5:
@@ -1135,6 +1339,39 @@ def build_cases(ctx):
         add(gen, ops=[{"op": "history", "steps": [["center"], ["superpose", cen, 1, ai, ri, True]] + tail, "parallel": True, "ref": "self", "frame": 1}
                       for cen in (False, True) for ai, ri in ((None, None), (sel, None), (sel, [1, 4, 6, 7, 2]))
                       for tail in ([], [["slice", 0, None, 2]])])
+    # fixed probes: mass-weighted centring (centre of mass != centroid), joins of centred pieces with a repeated boundary frame
+    gen = {"kind": "random", "n": 7, "m": 7, "F": 4, "G": 2, "scale": 1.0, "offset": 5.0}
+    add(gen, ops=[{"op": "history", "steps": [["center_mass"]] + tail, "parallel": par, "ref": "self", "frame": 1}
+                  for tail in ([], [["slice", 1, None, 1]]) for par in (True, False)]
+        + [{"op": "history", "steps": [["center"], ["join", disc, ov, True, 2, 77 + 13 * int(disc) + int(ov)]] + tail, "parallel": True, "ref": "self", "frame": fr_}
+           for disc in (True, False) for ov in (True, False) for tail in ([], [["slice", 2, None, 1]]) for fr_ in (0, 5)])
+    # argument handling: what the documentation excludes must raise, unusual but legal arguments must work
+    for _ in range(3 if quick else 40):
+        n = rng.randint(5, 12)
+        m = n + rng.choice([0, 0, 2])
+        G = rng.randint(1, 3)
+        gen = {"kind": "random", "n": n, "m": m, "F": rng.randint(1, 3), "G": G, "scale": 1.0, "offset": 1.0}
+        k = rng.randint(3, n)
+        A, B = sub_indices(rng, n, k), sub_indices(rng, m, k)
+        bad = lambda idx, v: idx[:-1] + [v]
+        ops = []
+        for call in ("rmsd", "superpose", "rmsf"):
+            ops.append({"op": "invalid", "call": call, "frame": 0, "atom_indices": bad(A, n), "why": "atom index = n_atoms"})
+            ops.append({"op": "invalid", "call": call, "frame": 0, "atom_indices": A, "ref_atom_indices": bad(B, m + rng.randint(0, 3)), "why": "reference index out of range"})
+            ops.append({"op": "invalid", "call": call, "frame": 0, "atom_indices": A, "ref_atom_indices": B + [0], "why": "selections of different length"})
+            ops.append({"op": "invalid", "call": call, "frame": G + rng.randint(0, 2), "why": "frame beyond the reference"} if n == m else
+                       {"op": "invalid", "call": call, "frame": 0, "why": "different atom counts, no selections"})
+        ops.append({"op": "invalid", "call": "rmsd", "frame": 0, "atom_indices": bad(A, -1), "why": "negative atom index (documented: valid positive indices)"})
+        ops.append({"op": "invalid", "call": "rmsd", "frame": -G - 1, "why": "frame below -n_frames"} if n == m else
+                   {"op": "invalid", "call": "rmsd", "frame": 0, "atom_indices": A, "ref_atom_indices": bad(B, -1), "why": "negative reference index"})
+        # legal: negative frame (Python indexing), repeated indices, a selection for the reference only
+        dup = A + [A[0]]
+        ops.append({"op": "rmsd", "frame": -1, "parallel": True, "atom_indices": dup, "ref_atom_indices": B + [B[0]]})
+        if n == m:
+            perm = sub_indices(rng, n, n)
+            ops.append({"op": "rmsd", "frame": 0, "parallel": False, "ref_atom_indices": perm, "atom_indices": None})
+            ops.append({"op": "superpose", "frame": 0, "parallel": True, "ref_atom_indices": perm, "atom_indices": None})
+        add(gen, ops=ops)
     # the rmsf-with-atom-indices path
     for _ in range(4 if quick else 30):
         n = rng.randint(6, 30)
@@ -1313,8 +1550,17 @@ def check_cases(ctx, cases, arrays, out, errors):
             bucket = "%s/%s" % (gen["kind"], op["op"])
             if key in errors:
                 ctx.count(rec, bucket=bucket)
-                ctx.fail("%s raised on valid input: %s" % (op["op"], errors[key].split(":")[0]), rec, observed=errors[key],
-                         expected="a value", tags={"kind": "raises", "op": op["op"]})
+                ref_only = (op.get("ref_atom_indices") is not None and op.get("atom_indices") is None and errors[key].startswith("TypeError")
+                            and "slice" in errors[key])
+                ctx.fail("%s raised on valid input: %s%s" % (op["op"], errors[key].split(":")[0], " (selection given for the reference only)" if ref_only else ""),
+                         rec, observed=errors[key], expected="a value",
+                         tags={"kind": "raises", "op": op["op"], "explained_by": "ref_selection_alone" if ref_only else None})
+                continue
+            if op["op"] == "invalid":
+                ctx.count(rec, nontrivial=True, bucket="arguments/%s/%s" % (op["call"], op["why"]))
+                if float(out[key][0]) != 1.0:
+                    ctx.fail("%s accepts arguments its documentation excludes" % op["call"], rec, observed="returned a result",
+                             expected="ValueError / IndexError / TypeError (%s)" % op["why"], tags={"kind": "accepts_invalid", "op": op["call"]})
                 continue
             val = out[key]
             if "same_as" in op and ("c%d_o%d" % (k, op["same_as"])) in out:
@@ -1433,7 +1679,7 @@ def check_cases(ctx, cases, arrays, out, errors):
 
 def check_history(ctx, rec, op, gen, pre, out, key, bucket, track, excl):
     nopre, xyz, rxyz, flags = out[key + "_nopre"], out[key + "_xyz"], out[key + "_rxyz"], out[key + "_flags"]
-    fr = op["frame"]
+    fr = int(flags[2]) if len(flags) > 2 else op["frame"]
     edited = any(st[0] == "inplace_shift" for st in op["steps"] + op.get("ref_steps", []))
     kinds = "+".join(st[0] for st in op["steps"])
     for f in range(xyz.shape[0]):
@@ -1535,7 +1781,7 @@ def classify_pending(ctx, pending):
 def exact_tie(ctx, cases, arrays, out):
     """Integer-grid cases: Gallina coefficients == independent exact characteristic polynomial; the
     implementation's rmsd must be the largest root of that polynomial."""
-    coqcases, meta = [], []
+    coqcases, meta, flatcases = [], [], []
     for k, c in enumerate(cases):
         if c["gen"]["kind"] not in ("grid", "half_turn_axis", "swapped_halves"):
             continue
@@ -1550,6 +1796,10 @@ def exact_tie(ctx, cases, arrays, out):
             gb = sum(v * v for _, y in pairs for v in y)
             assert coef[1] == 0
             coqcases.append((coq_pairs(pairs), "(%s, %s, %s, %s, %s)" % (cz(coef[2]), cz(coef[3]), cz(coef[4]), cz(ga), cz(gb))))
+            # the same through the kernels' loop structure: flat atom-major buffers, block/mask/remainder arithmetic of
+            # msd_atom_major and the trace pass of the centring kernel (coq/Rmsd/Layout.v on coq/Gen/RmsdLayout.v)
+            flatcases.append(("(%d, %s, %s)" % (len(xa), clist([cz(v) for row in xa for v in row]), clist([cz(v) for row in xb for v in row])),
+                              "Some (%s, %s, %s, %s, %s)" % (cz(coef[2]), cz(coef[3]), cz(coef[4]), cz(ga), cz(gb))))
             meta.append((k, f, pairs, coef, ga, gb, unit))
     if not coqcases:
         return
@@ -1557,6 +1807,18 @@ def exact_tie(ctx, cases, arrays, out):
     if errs:
         ctx.break_("correspondence:coqc-evaluation", "\n".join(errs))
         return
+    bad2, errs2 = ctx.coq_mismatches(["MD.Rmsd.Model", "MD.Rmsd.Layout"], ("nat * list Z * list Z", "option (Z * Z * Z * Z * Z)"),
+                                     "ocoeffs_eqb", "coeffs_flat", flatcases)
+    if errs2:
+        ctx.break_("correspondence:coqc-evaluation", "\n".join(errs2))
+    for i in bad2:
+        k, f, pairs, coef, ga, gb, unit = meta[i]
+        ctx.break_("correspondence:layout-model-vs-exact",
+                   "coefficients computed through the kernels' loop structure (masks, block counts, remainders read from the sources) "
+                   "differ from det(tI-K) computed exactly: %d atoms (n mod 4 = %d), case %s frame %d" % (len(pairs), len(pairs) % 4, cases[k]["gen"], f))
+    lay = ctx.notes.setdefault("coverage_extra", {}).setdefault("layout_model_evaluations_by_n_mod_4", {})
+    for (k, f, pairs, coef, ga, gb, unit) in meta:
+        lay[str(len(pairs) % 4)] = lay.get(str(len(pairs) % 4), 0) + 1
     for i in bad:
         k, f, pairs, coef, ga, gb, unit = meta[i]
         ctx.break_("correspondence:charpoly-model-vs-exact",
@@ -1627,6 +1889,7 @@ def run_cases(ctx, cases, batch=60):
         pending = check_cases(ctx, chunk, arrays, out, errors)
         classify_pending(ctx, pending)
         exact_tie(ctx, chunk, arrays, out)
+
         if s == 0:
             oracle_selfcheck(ctx, chunk, arrays)
 
